@@ -465,6 +465,7 @@ func (m *repoManager) putNewIDs() error {
 	var ctx storage.MetadataContext
 	value := append(m.repoID.Bytes(), m.versionID.Bytes()...)
 	value = append(value, m.instanceID.Bytes()...)
+	dvid.VerifYield("datastore.putNewIDs")
 	return m.store.Put(ctx, storage.NewTKey(newIDsKey, nil), value)
 }
 
